@@ -55,6 +55,37 @@ def run(ctx):
     _C01.geometry_rebase(ctx, "C07.Q1", fb)
     # ---------------------------------------------------------------- R1 RunnerScope
     n1 = 0
+    # R1c scopes nest (a pool task that runs something through the in-place executor): leaving a scope restores the executor
+    # that was current when it was entered - never a constant (after seed C07-6)
+    n1c = 0
+    for fn in fb.find(pred=lambda f: re.match(SCOPE_RE, f.record or "") and f.kind == "dtor" and f.has_cfg()):
+        ig = IG(fn, inline=nin)
+        live = ig.live_nodes()
+        for n in ig.ev_nodes():
+            if n.id not in live or n.ev["e"] != "asg" or n.ev.get("op") != "=":
+                continue
+            lhs_ = strip_cast(n.ev.get("lhs"))
+            tgt = fn.events.get(lhs_.get("id")) if isinstance(lhs_, dict) and lhs_.get("k") == "e" else None
+            if tgt is None or tgt.get("name") != "current":
+                continue
+            n1c += 1
+            rhs = strip_cast(ig.resolve(n.ev.get("rhs"), n.frame))
+            saved = isinstance(rhs, dict) and rhs.get("k") == "f" and isinstance(strip_cast(rhs.get("b")), dict) and strip_cast(rhs.get("b")).get("k") == "this"
+            ctor_saves = False
+            if saved:
+                for c in fb.find(pred=lambda f: f.record == fn.record and f.kind == "ctor" and f.has_cfg()):
+                    for _, ev in c.all_events():
+                        if ev["e"] == "init" and ev.get("field") == rhs.get("n"):
+                            for sd in walk(ev.get("v")):
+                                e0 = c.events.get(sd.get("id")) if sd.get("k") == "e" else None
+                                if e0 is not None and e0.get("name") == "current":
+                                    ctor_saves = True
+            ctx.ob("C07.R1c", L.short(fn), saved and ctor_saves, n.where,
+                   "leaving a RunnerScope must restore the executor that was current when the scope was entered (a member initialised "
+                   "from current() by the constructor): with a constant, closing a nested scope - a pool task that uses the in-place "
+                   "executor - leaves the worker outside its own executor for the rest of the task and every later one",
+                   site="RunnerScope::~RunnerScope@restores-saved")
+    ctx.floor("C07.R1c", n1c, 1, "RunnerScope destructor stores to current()")
     for fn in fb.find(pred=lambda f: f.has_cfg() and f.file.endswith("/executor.cpp")):
         ig = IG(fn, inline=nin)
         live = ig.live_nodes()
